@@ -16,7 +16,7 @@ import (
 var c01XOps = []string{
 	"get-accessories", "put-value", "put-ev", "verify-finish-forged", "cipher-probe",
 	"get-characteristics", "post-resource", "pairings-add", "pairings-remove-L", "verify-start",
-	"verify-finish-zero-key", "setup-start", "setup-verify-wrong-code", "reopen",
+	"verify-finish-zero-key", "setup-start", "setup-verify-wrong-code", "reopen", "take-over-L-port",
 }
 
 func c01Alphabet(thorough bool) []string {
@@ -43,6 +43,7 @@ type c01Conn struct {
 	last     *refctl.Verify
 	pending  *refctl.Verify // L: a finish request whose head was sent and whose handler waits for the body
 	pendBody []byte
+	takeover bool // connected from the address:port another connection used before
 }
 
 type c01Run struct {
@@ -197,6 +198,29 @@ func (r *c01Run) step(ev string) bool {
 		cn.k.Close()
 		cn.dead = true
 		r.conn(who)
+	case "take-over-L-port":
+		// L's connection is reset; the adversary then connects from exactly the same source address and port
+		l := r.conns["L"]
+		if l == nil || l.pending != nil {
+			return r.after(ev)
+		}
+		local := l.k.Local
+		if !l.dead {
+			l.k.Close()
+			l.dead = true
+		}
+		cn.k.Close()
+		cn.dead = true
+		time.Sleep(3 * time.Millisecond) // let the accessory notice the reset
+		for attempt := 0; attempt < 5; attempt++ {
+			k, err := refctl.DialFrom(r.b.W.Addr, local)
+			if err == nil {
+				r.b.conns = append(r.b.conns, k)
+				r.conns[who] = &c01Conn{k: k, takeover: true}
+				break
+			}
+			time.Sleep(5 * time.Millisecond)
+		}
 	case "get-accessories":
 		m, evs, err := do("GET", "/accessories", "", nil)
 		if !r.refused(who, op, m, evs, err) {
@@ -378,6 +402,9 @@ func (r *c01Run) finalProbes() {
 			continue
 		}
 		m, evs, err := cn.k.Do("GET", "/accessories", "", nil)
+		if err != nil && cn.takeover {
+			continue // a connection racing with the tear-down of its predecessor may be dropped; only being SERVED counts
+		}
 		if err != nil {
 			r.fail("unverified-connection-left-plaintext", fmt.Sprintf("adversary connection %s, never verified, no longer answers plaintext requests (%v): its session was switched", name, err))
 			return
@@ -427,7 +454,7 @@ func init() {
 	fw.Register(&fw.Check{
 		ID:    "C01",
 		Level: "model_checking",
-		Rule:  "every history of length 3 (quick, 26 symbols) / 4 (thorough, 35 symbols) over: two adversary connections X1, X2 (plaintext GET /accessories, GET /characteristics, PUT value, PUT ev, POST /resource, POST /pairings add / remove, pair-verify start, forged and zero-key finish, pair-setup start and wrong-code verify, a request sealed under keys derived from its own exchange, reopen), a legitimate controller L (verify, changing write, subscribe, close, and a pair-verify whose finish request is split with Expect: 100-continue so that its handler overlaps with the events that follow) and the application (set value), against the real transport (with /resource registered) over TCP, fresh system per history. After EVERY event: each protected operation on a connection the model holds as unverified is refused (status not 2xx, body discloses no attribute, value or canary — checked as plaintext and after decryption under every key the adversary holds), no EVENT precedes a barrier request on any adversary connection, characteristic values / every application callback counter / stored pairings are exactly what the model says; at the end of every history L (if verified) must still be served and every live adversary connection must still answer in plaintext, refuse, and not serve ciphertext under its own exchange keys. states = histories executed (each judges all its prefixes)",
+		Rule:  "every history of length 3 (quick, 26 symbols) / 4 (thorough, 35 symbols) over: two adversary connections X1, X2 (plaintext GET /accessories, GET /characteristics, PUT value, PUT ev, POST /resource, POST /pairings add / remove, pair-verify start, forged and zero-key finish, pair-setup start and wrong-code verify, a request sealed under keys derived from its own exchange, reopen, reconnect from exactly the source address and port the legitimate controller used), a legitimate controller L (verify, changing write, subscribe, close, and a pair-verify whose finish request is split with Expect: 100-continue so that its handler overlaps with the events that follow) and the application (set value), against the real transport (with /resource registered) over TCP, fresh system per history. After EVERY event: each protected operation on a connection the model holds as unverified is refused (status not 2xx, body discloses no attribute, value or canary — checked as plaintext and after decryption under every key the adversary holds), no EVENT precedes a barrier request on any adversary connection, characteristic values / every application callback counter / stored pairings are exactly what the model says; at the end of every history L (if verified) must still be served and every live adversary connection must still answer in plaintext, refuse, and not serve ciphertext under its own exchange keys. states = histories executed (each judges all its prefixes)",
 		Run:   c01Run1,
 		Replay: func(c *fw.Ctx, raw json.RawMessage) {
 			var cas c01Case
